@@ -33,7 +33,7 @@ ASSUMPTIONS = ["grid gaps shorter than the roll window (expiry - last trading da
                "chain spans cover the process clock (K3 is reported under C10 only)"]
 REQUIRED = ["C11:lead-resolution", "C11:never-past-last-trading", "C11:monotone", "C11:others-flat", "C11:not-held-at-expiry",
             "C11:roll-closes-old-lead", "C11:new-lead-at-own-quotes"]
-REQUIRED_CATS = ["roll-inside-latency-window", "rolling:ES", "rolling:NK", "rolling:VX", "rolling:ZN", "rolled-while-holding"]
+REQUIRED_CATS = ["resolution:explicit-unsorted-list", "roll-inside-latency-window", "rolling:ES", "rolling:NK", "rolling:VX", "rolling:ZN", "rolled-while-holding"]
 REQUIRED_HITS = ["Broker.transact", "Broker.rebalance"]
 TECHNIQUE = "runtime monitoring: complete enumeration of roll instants against a linear-scan reference; holdings invariants after every step of rolling episodes"
 LEVEL_TEXT = ("Roll instants of every built-in class are enumerated completely per decade (exact instant and +-1us) against an "
@@ -61,6 +61,12 @@ def sys_case(ctx, j, tier):
     month = j % 3
     AbstractContract.now = datetime.min
     ch = FutureChain(cls, "%d-01" % dec, "%d-12" % min(dec + 10, 2099), month=month)
+    if j % 2 == 1:
+        # the same chain given as an explicit list of contracts in arbitrary order
+        listed = list(ch.contracts)
+        rng.shuffle(listed)
+        ch = FutureChain(contracts=listed, month=month)
+        ctx.cat("resolution:explicit-unsorted-list")
     ltds = [pydt(c.last_trading_date) for c in ch.contracts]
     usable = ltds[: len(ltds) - 1 - month - 1]
     inst = []
